@@ -100,10 +100,12 @@ const (
 	sitGoneBodyVarOverField = sitCount
 	sitGoneBlockVarAbsent   = sitCount + 1
 	sitGoneLoopVarOverTag   = sitCount + 2
-	sitCount11              = sitCount + 3
+	sitGoneRoundVarOverField = sitCount + 3 // the builtin runs at the top of a for-in body whose previous round assigned the name further down
+	sitGoneStringLoopVar     = sitCount + 4
+	sitCount11               = sitCount + 5
 )
 
-var c11SitNames = []string{"variable", "field", "tag", "variable-over-field", "variable-over-tag", "absent", "gone-body-variable-over-field", "gone-block-variable-absent", "gone-loop-variable-over-tag"}
+var c11SitNames = []string{"variable", "field", "tag", "variable-over-field", "variable-over-tag", "absent", "gone-body-variable-over-field", "gone-block-variable-absent", "gone-loop-variable-over-tag", "variable-of-the-previous-round-over-field", "gone-variable-of-a-loop-over-a-string"}
 
 type c11Tmpl struct {
 	Name    string
@@ -235,8 +237,19 @@ func c11Build(t c11Tmpl, sh c11Shape, sit int, val c11Val, base PointSpec) (*Pro
 		}
 		pt.Tags[sh.Key] = "tagval"
 		pre = append(pre, rt.ForIn("k", rt.List(val.Node()), rt.Block(rt.Assign("=", rt.Id("q"), rt.Int(1)))))
+	case sitGoneStringLoopVar:
+		if sh.Key != "k" || val.Name != "int" {
+			return nil, false
+		}
+		pt.Fields[sh.Key] = "fieldval"
+		pre = append(pre, rt.ForIn("k", rt.Str("xy"), rt.Block(rt.Assign("=", rt.Id("q"), rt.Int(1)))))
+	case sitGoneRoundVarOverField:
+		pt.Fields[sh.Key] = "fieldval"
 	}
 	body := t.Build(sh.Arg)
+	if sit == sitGoneRoundVarOverField {
+		body = []*rt.Node{rt.ForIn("q", rt.List(rt.Int(1), rt.Int(2)), rt.Block(append(body, rt.Assign("=", sh.Var(), val.Node()))...))}
+	}
 	tail := rt.Call("p", rt.Call("get_key", rt.Str(sh.Key)), rt.Call("get_key", rt.Id("o1")), rt.Call("get_key", rt.Id("dst")))
 	// the same key read in a plain expression directly after the builtin (no call in between), then probed
 	plain := rt.Assign("=", rt.Id("rb"), rt.QId(sh.Key))
@@ -323,7 +336,7 @@ func init() {
 		ID:    "C11",
 		Level: "model_checking",
 		Rule: "49 call templates of the 15 builtins (every optional argument present/absent, identifier/attribute/string/expression arguments, all cast types, good and bad regular expressions, format strings with matching and mismatching verbs) " +
-			"x 6 key spellings (identifier, back-quoted, string literal, `_`, attribute expression, attribute expression with an index) x 9 subject situations (variable only, field only, tag only, variable shadowing a field, variable shadowing a tag, absent, and three in which a variable of that name has ceased to exist: local to a finished loop body over a field, local to a finished block with the key absent, variable of a finished for-in loop over a tag) " +
+			"x 6 key spellings (identifier, back-quoted, string literal, `_`, attribute expression, attribute expression with an index) x 11 subject situations (variable only, field only, tag only, variable shadowing a field, variable shadowing a tag, absent, and three in which a variable of that name has ceased to exist: local to a finished loop body over a field, local to a finished block with the key absent, variable of a finished for-in loop over a tag, the builtin at the top of a for-in body whose previous round assigned the name, variable of a finished loop over a string) " +
 			"x 32 subject values (int incl. the largest, float incl. 1e19, -0.0 and an integral one, bool, zero-padded / hex / underscored / exponent numeric strings, plain/padded/url-encoded/'+' without '%'/trailing '%'/percent-encoded UTF-8/undecodable/JSON/JSON with trailing text/numeric/float/bool/non-ASCII/tab+newline/regex-special/empty strings, list, map, nil) x 3 base points; " +
 			"oracle: the whole canonical final point (so every other key is checked untouched), captured standard output, probe trace of return values, of a plain-expression read of the subject key directly after the builtin and of three get_key read-backs, error flag — all equal to the reference builtins",
 		Assumptions: []string{"strings, regexp, net/url, fmt, encoding/json and spf13/cast are the trusted base the reference shares with the code", "unspecified cells: cast of collections / non-numeric strings, cast to \"string\", rename onto an existing key, set_tag from a construct without value"},
